@@ -513,6 +513,27 @@ def gen_program(R, shape):
         body = [f"u = {d}", "s = Sin(u)", "c = Cos(u)",
                 f"x = x + {coef}{_mono_txt([('u', R.randint(0, 1)), ('s', R.randint(1, 2)), ('c', R.randint(0, 1))])}"]
         return dict(text=_wrap(["x = 0", "u = 0"], body), goals=[[["x", 1]]], shape=shape, expect="value")
+    if shape == "dup":            # several functional variables of the same function and draw: powers add up
+        fam, ps = _pick_dist(R)
+        lim = EXP_LIMIT.get((fam, ps))
+        f1 = R.choice(FUNCS if (lim is None or lim >= 2) else FUNCS[:2])
+        other = "Cos" if f1 == "Sin" else ("Sin" if f1 == "Cos" else None)
+        body = [f"u = {_dist_txt(fam, ps)}", f"p = {f1}(u)", f"q = {f1}(u)"]
+        if other:
+            body += [f"r = {other}(u)", f"x = x + {coef}p*q*r + p"]
+        else:
+            body += [f"x = x + {coef}p*q*u + p"]
+        return dict(text=_wrap(["x = 0"], body), goals=[[["x", 1]]], shape=shape, expect="value")
+    if shape == "init":           # draw and its functions in the initial block: the same random value in every iteration
+        fam, ps = _pick_dist(R)
+        init = [f"u = {_dist_txt(fam, ps)}", "s = Sin(u)", "c = Cos(u)", "x = 0", "y = 1"]
+        body = [f"x = x + {coef}s", "y = y*c"]
+        return dict(text=_wrap(init, body), goals=[[["x", 1]], [["x", 2]], [["y", 1]]], shape=shape, expect="value")
+    if shape == "conddist":       # Sin of a conditioned draw: documented as unsupported (must be refused or right)
+        fam, ps = _pick_dist(R)
+        p = R.choice(["1/2", "1/3"])
+        body = [f"b = Bernoulli({p})", "if b == 1:", f"    u = {_dist_txt(fam, ps)}", "end", "s = Sin(u)", "x = x + s"]
+        return dict(text=_wrap(["x = 0", "b = 0", "u = 0"], body), goals=[[["x", 1]]], shape=shape, expect="value")
     if shape == "mix":            # Sin/Cos together with Exp of the same draw (documented as rejected)
         fam, ps = _pick_dist(R, ["Normal", "Uniform"])
         f1 = R.choice(FUNCS[:2])
@@ -526,7 +547,7 @@ def _wrap(init, body):
 
 
 SHAPES = ["acc", "acc", "exp", "exp_missing", "ref", "later", "two", "cond", "condfunc", "const", "stale",
-          "rot", "finite", "mix"]
+          "rot", "finite", "mix", "dup", "init", "conddist"]
 
 
 def benchmark_goals(text):
